@@ -148,6 +148,15 @@ CHECKS = {
         assumptions=['"documented no-dictionary result": a return of 0 is accepted for every trainer', 'fastCover f is clamped to 24 by the harness for f in 25..31 (2^f 4-byte counters are legal but exceed the sandbox); f > 31 is passed through as out-of-contract',
                      'a forced dictID is checked for every algorithm that takes ZDICT_params_t', 'round trips: all of the first 40 samples, then every 7th'],
     ),
+    'C20': dict(
+        level='exploration',
+        batches=[dict(scenario='c20seek', flavour='P', quick=16000, thorough=800000), dict(scenario='c20seek', flavour='A', quick=1200, thorough=60000)],
+        rule='one archive per run: content 0..300 KiB (thorough 2 MiB), maxFrameSize in {1..64, 64..4 K, 1 K..200 K, 2^30, 0}, checksum flag, writer call history (input slices, output capacities down to 1 byte, explicit endFrame points, endStream into small buffers); reader on memory / stdio FILE (fopencookie) / callbacks in turn, 3-30 (thorough 60) range or whole-frame reads placed at random, continuing, frame-start, frame-end, backwards and tail positions; one run in three fails the k-th (and a later) storage operation, stdio reads may be short; one run in four corrupts the stored archive (6 kinds); distinct = distinct plan signature; non-trivial = the reader history ran (or a corrupted archive was refused at init)',
+        real=REAL_COMMON + ['contrib/seekable_format/zstdseek_compress.c, zstdseek_decompress.c, unmodified'],
+        stub=['the storage under the reader is the simulator (memory image with a fault plan, exposed as callbacks or as a FILE through fopencookie)', 'independent frame walk + independent decoder for the layout and conformance of the archive'],
+        assumptions=['reads are generated with offset + length <= content size (property scope)', 'corrupted archives: memory safety and termination always; "never other bytes as success" is required only for whole-frame reads with checksums on when frame data (not the seek table) was damaged, because partial reads are verified only at the end of a frame',
+                     'after a storage fault the failed operation must return an error and any later operation that reports success must return exact bytes; later operations may still fail only if a new fault is injected'],
+    ),
 }
 
 def default_root(tier):
